@@ -9,9 +9,13 @@ pub struct Compiled {
 }
 
 pub fn compile_group(files: &[(String, String)], scripts: &[(String, String)]) -> Result<Compiled, String> {
+    compile_group_opt(files, scripts, false)
+}
+
+pub fn compile_group_opt(files: &[(String, String)], scripts: &[(String, String)], dev: bool) -> Result<Compiled, String> {
     // a compiler panic must not take the simulator down
     let r = std::panic::catch_unwind(std::panic::AssertUnwindSafe(|| {
-        let mut g = TmplGroup::new();
+        let mut g = if dev { TmplGroup::new_dev() } else { TmplGroup::new() };
         let mut warn = 0;
         for (p, s) in files {
             let ws = g.add_tmpl(p, s);
